@@ -145,8 +145,18 @@ func (a *aclHook) OnACLCheck(cl *mqtt.Client, topic string, write bool) bool {
 // scriptHook is one scripted hook of a C19 stack.
 type scriptHook struct {
 	mqtt.HookBase
-	s ScriptedHook
-	r *recHook
+	s       ScriptedHook
+	r       *recHook
+	initArr chan struct{} // non-nil: Init reports here and waits for initRel (a hook attached to a broker that carries traffic)
+	initRel chan struct{}
+}
+
+func (h *scriptHook) Init(config any) error {
+	if h.initArr != nil {
+		h.initArr <- struct{}{}
+		<-h.initRel
+	}
+	return nil
 }
 
 var errPlain = errors.New("scripted plain error")
